@@ -10,9 +10,9 @@ LEVEL = 'proof'
 PID = 'C18'
 
 
-def run_child(args, timeout=600):
+def run_child(args, timeout=600, profile='r'):
     try:
-        p = subprocess.run([engine.impl_bin('r', 'stackchild')] + [str(a) for a in args], stdout=subprocess.PIPE,
+        p = subprocess.run([engine.impl_bin(profile, 'stackchild')] + [str(a) for a in args], stdout=subprocess.PIPE,
                            stderr=subprocess.PIPE, text=True, timeout=timeout)
         span = None
         if p.stdout.startswith('ok span='):
@@ -42,8 +42,19 @@ def run(rep, tier, seed):
     t0 = time.time()
     with ThreadPoolExecutor(max_workers=6) as ex:
         res = list(ex.map(run_child, scen))
+    # the same in a build WITH debug assertions (smaller n: the debug build is slow): whatever the assertions check
+    # must not walk the tree recursively either
+    nd = 600000
+    dscen = [('%s-%s' % (what, order), nd, 'main') for order in ('inc', 'dec') for what in ('drop', 'clear', 'partial', 'iter', 'query', 'set')]
+    dscen += [('boolean-int', 60000, 'main'), ('boolean-intdesc', 60000, 'main')]
+    with ThreadPoolExecutor(max_workers=6) as ex:
+        dres = list(ex.map(lambda a: run_child(a, 900, 'd'), dscen))
     results = {}
     fails = []
+    for s, r in zip(dscen, dres):
+        results['debug build: %s n=%d %s' % s] = {'exit': r[0], 'span_bytes': r[1]}
+        if r[0] != 0:
+            fails.append((('debug build: ' + s[0], s[1], s[2]), r))
     for s, r in zip(scen, res):
         results['%s n=%d %s' % s] = {'exit': r[0], 'span_bytes': r[1]}
         if r[0] != 0:
@@ -56,23 +67,24 @@ def run(rep, tier, seed):
             b = results.get('%s-%s n=%d main' % (what, order, small), {}).get('span_bytes')
             if a is not None and b is not None and a > 4 * b + 4096:
                 grow.append(('%s-%s' % (what, order), b, a))
-    cov['evaluations'] = len(scen)
-    cov['distinct_nontrivial'] = len(scen)
+    cov['evaluations'] = len(scen) + len(dscen)
+    cov['distinct_nontrivial'] = len(scen) + len(dscen)
     cov['scenarios'] = results
     cov['rule'] = ('each scenario runs in its own child process: build a SplayTree of n keys in increasing / decreasing / zig-zag order, then '
                    'drop / clear / query (contains, get, next, prev, min, max, remove) / consume forwards / backwards / consume partially and '
                    'drop; n = 3*10^6 and 10^5; main thread (8 MiB) and a 2 MiB thread; plus the early-break Boolean operation on %d '
-                   'rectangles. Pass = exit status 0 and the span of stack addresses observed inside comparator and key destructor calls '
+                   'rectangles; a subset (n = 6*10^5, 6*10^4 rectangles) also in a build with debug assertions. Pass = exit status 0 and the span of stack addresses observed inside comparator and key destructor calls '
                    'does not grow with n.' % nrect)
     cov['samples'] = ['stackchild drop-inc 3000000 main', 'stackchild boolean-int %d main' % nrect]
     cov['trusted_base'] = ['cost model (Teardown.v): recursion depth of drop glue = height; frame sizes, inlining and tail calls are not modelled',
                            'the runtime part is observation of child processes (exit status, stack-address span)']
-    rep.log('%d scenarios in %.1fs: %d failing, %d growing' % (len(scen), time.time() - t0, len(fails), len(grow)))
+    rep.log('%d scenarios in %.1fs: %d failing, %d growing' % (len(scen) + len(dscen), time.time() - t0, len(fails), len(grow)))
     if fails:
         s, r = fails[0]
         rep.violation('C18: scenario %s n=%d (%s stack) ended with status %s %s (%d failing scenarios)' % (s[0], s[1], s[2], r[0], r[2][:120], len(fails)),
                       {'scenario': s[0], 'n': s[1], 'stack': s[2], 'exit': r[0], 'stderr': r[2],
-                       'replay_cmd': 'harness/target/release/stackchild %s %d %s; echo $?' % s})
+                       'replay_cmd': ('harness/target/debug/stackchild %s %d %s; echo $?' % (s[0][len('debug build: '):], s[1], s[2])
+                                      if s[0].startswith('debug build: ') else 'harness/target/release/stackchild %s %d %s; echo $?' % s)})
     elif grow:
         g = grow[0]
         rep.violation('C18: stack use of scenario %s grows with n: %d bytes at n=10^5, %d bytes at n=3*10^6' % g,
